@@ -91,7 +91,7 @@ PROPS.update({
         "profiles": {"quick": ["release", "checked"], "thorough": ["release", "checked", "asan"]},
         "budget": {"quick": 14, "thorough": 200},
         "fuzz": {"thorough": {"targets": [{"bin": "fz_decode", "corpus": "decode", "mode": "total", "replay": "decode-total", "seconds": 300}]}},
-        "miri": {"thorough": {"engine": "c04", "args": ["--tiny"], "procs": 16, "features": "noalloc"}},
+        "miri": {"thorough": {"engine": "c04", "args": ["--tiny"], "procs": 32, "features": "noalloc"}},
         "claim": "Every decoding / frame-parsing entry point (3 file readers plain + seekable with seeks, raw stream reader, verify_reader, read_blocks, FrameIterator + Subframe::decode, generate_seektable, Frame/FrameHeader::read[_subset] at every sync-looking offset) is driven over hostile inputs while a panic monitor, a per-case CPU-time budget (20 s + 1 ms/byte, thread CPU time, enforced by an in-process watchdog), an allocation monitor (peak <= 48 MiB + 64 n, counting global allocator) and an output-volume bound watch it, in the release profile and with overflow checks + debug assertions (thorough adds an AddressSanitizer build). Inputs: generator malform knobs with valid CRCs (each-choice), CRC-repaired mutations of valid frames, STREAMINFO/SEEKTABLE that lie about valid frames, random and sync-rich bytes, spliced streams, mutated crate output, truncated fixtures. Held = no monitor fired on the executions observed.",
         "note": "the monitors see only paths the workload reaches; 'never hangs' is restated as the CPU budget; allocation bound constants are fixed in DESIGN.md",
         "technique": "runtime monitoring + sanitizers: panic/CPU/allocation/output monitors over structure-aware malformed inputs; overflow-checked and ASan builds",
